@@ -82,6 +82,10 @@ func cmdRound(p *lang.Process) error {
 		}
 
 	default:
+		if int(precision) == 0 {
+			// eg `1e-1`: a non-integer precision not written as a decimal place
+			return fmt.Errorf("invalid precision `%s`: expecting an integer or a decimal place (eg `0.01`)", params[1])
+		}
 		switch {
 		case roundDown:
 			return roundWriter(p, roundDownMultiple(int(value), int(precision)))
